@@ -14,7 +14,7 @@
 //         fin;<fn>;<grid>;<idx>;<dof>       finiteness
 //         inva;<grid>;<idx>                 NormalDistribution(Normal(alpha)) = 1-alpha
 //         invx;<i>                          Normal(NormalDistribution(x)) = -x, x=(i-4000)/100
-//     grid = A<den> (k/den, k=1..den-1, restricted to [0.0005,0.9995]) or L (dyadic log grid)
+//     grid = A<den> (k/den, k=1..den-1, restricted to [0.0005,0.9995]), L (dyadic log grid) or F (2^-j, 1.5*2^-j, j=42..1021)
 //   c18:  ell;<id>;<lat>;<lon>;<h>   pole;<id>;<sign>;<h>   elltab;<id>
 //         g2d;<gon %.17g>;<sign>;<prec>   s2s;<d>;<m>;<s>;<half>;<prec>
 //         dms;<rad %.17g>                 dmslit;<d>;<m>;<s>          ll;<rad %.17g>;<prec>
@@ -298,8 +298,15 @@ static std::string chibranch(double a, int n) {
   double t = GNU_gama::Normal(a);
   return n < (2 + int(4 * std::fabs(t))) ? "polynomial-A" : "polynomial-B";
 }
+// far grid F: alpha = 2^-j and 1.5*2^-j, j = 42 .. 1021 (2.3e-13 down to 4.5e-308, the whole normal double range), ascending
+static const std::vector<double>& fgrid() {
+  static std::vector<double> g;
+  if (g.empty()) for (int j = 1021; j >= 42; j--) { g.push_back(ldexp(1.0, -j)); g.push_back(ldexp(1.5, -j)); }
+  return g;
+}
 static double grid_alpha(const std::string& grid, long idx) {
   if (grid == "L") return lgrid().a.at(idx);
+  if (grid == "F") return fgrid().at(idx);
   long den = atol(grid.c_str() + 1);
   return (double)((LD)idx / den);
 }
@@ -333,39 +340,67 @@ static void c17_sym(int fn, const std::string& grid, long idx, long cidx, int n,
   if (!ok) V(std::string("C17|symmetry|") + FN[fn] + "|" + dofclass(fn == NORMAL ? 0 : n) + "|" + alphaclass(grid_alpha(grid, idx)), cs,
              "alpha=" + str(grid_alpha(grid, idx)) + " f(alpha)=" + str(v) + " f(1-alpha)=" + str(vc) + " sum=" + str(v + vc));
 }
+static const char* decade(LD t) {   // coarse class of a tail probability
+  if (t >= 0.0005L) return "tail>=0.0005"; if (t >= 1e-12L) return "tail>=1e-12"; if (t >= 1e-16L) return "tail>=1e-16"; if (t >= 1e-100L) return "tail>=1e-100"; return "tail<1e-100";
+}
+static const LD UPPER_ABS = 4.5e-16L;   // absolute accuracy granted to D near 1: DBL_EPSILON (the stopping rule of the continued fraction) + 2 roundings
+static const LD SNAP_TAIL = 5.1e-15L;   // class boundary of the listed finding "D snaps to exactly 1" (observed for 1-Phi(x) < 4.98e-15, x >= 7.74)
 static void c17_inva(const std::string& grid, long idx) {
   double a = grid_alpha(grid, idx);
-  double q = GNU_gama::Normal(a), D, f;
+  double q = GNU_gama::Normal(a), D, f, Dl, fl;
   GNU_gama::NormalDistribution(q, D, f);
-  C("evaluations"); C("transitions", 2);
-  // D must equal 1-alpha: relative 1e-6 on the smaller tail, plus one ulp of 1.0 (D is a double near 1)
-  LD want = 1 - (LD)a;
-  LD tol = 1e-6L * std::min((LD)a, want) + 2.3e-16L;
-  LD err = fabsl((LD)D - want);
-  O(std::string("inverse-alpha|err/tol") + bucket(err / tol));
+  GNU_gama::NormalDistribution(-std::fabs(q), Dl, fl);
+  C("evaluations", 2); C("transitions", 3);
   std::string cs = "inva;" + grid + ";" + std::to_string(idx);
-  if (ctx().verbose) printf("# %s alpha=%.17g Normal=%.17g D=%.17g 1-alpha=%.20Lg err=%.3Lg tol=%.3Lg\n", cs.c_str(), a, q, D, want, err, tol);
-  if (!(err <= tol)) V(std::string("C17|inverse-alpha|NormalDistribution(Normal(alpha))|") + alphaclass(a), cs,
+  // (1) D(Normal(alpha)) must equal 1-alpha: relative 1e-6 on the smaller tail, plus the absolute accuracy granted to D near 1
+  LD want = 1 - (LD)a;
+  LD t = std::min((LD)a, want);           // exact: the grids have exactly representable complements or alpha >= 0.0005
+  LD tol = 1e-6L * t + UPPER_ABS;
+  LD err = fabsl((LD)D - want);
+  O(std::string("inverse-alpha|D(q)=1-alpha|err/tol") + bucket(err / tol));
+  // (2) the same statement on the side where it is resolvable: the lower tail D(-|Normal(alpha)|) equals min(alpha, 1-alpha) to 1e-6 relative
+  LD err2 = std::isfinite(q) ? fabsl((LD)Dl - t) / t : 1e30L;
+  O(std::string("inverse-alpha|D(-|q|)=tail|") + decade(t) + "|err/1e-6" + bucket(err2 / 1e-6L));
+  if (ctx().verbose) printf("# %s alpha=%.17g Normal=%.17g D(q)=%.17g 1-alpha=%.20Lg err=%.3Lg tol=%.3Lg ; D(-|q|)=%.17g tail=%.17Lg relerr=%.3Lg\n", cs.c_str(), a, q, D, want, err, tol, Dl, t, err2);
+  if (!(err <= tol)) V(std::string("C17|inverse-alpha|NormalDistribution(Normal(alpha))|") + ((D == 1 || D == 0) && t < SNAP_TAIL ? "upper-snaps-to-1|tail<5.1e-15" : alphaclass(a)), cs,
                        "alpha=" + str(a) + " Normal=" + str(q) + " D=" + str(D) + " expected 1-alpha; error " + str((double)err) + " tol " + str((double)tol));
+  if (!(err2 <= 1e-6L)) V(std::string("C17|inverse-alpha|NormalDistribution(-|Normal(alpha)|)=tail|") + decade(t), cs,
+                          "alpha=" + str(a) + " Normal=" + str(q) + " D(-|q|)=" + str(Dl) + " expected " + str((double)t) + " relative error " + str((double)err2) + " (bound 1e-6)");
 }
+// x grid: (a) NormalDistribution(x) against the reference distribution function, (b) Normal(NormalDistribution(x)) = -x,
+// both judged wherever the true value is representable (lower side: Phi(x) >= DBL_MIN, i.e. x >= -37.5; upper side: 1-Phi(x) >= 4.5e-16)
 static void c17_invx(int i) {
   double x = (i - 4000) / 100.0;
   double D, f; GNU_gama::NormalDistribution(x, D, f);
   C("evaluations"); C("transitions");
   std::string cs = "invx;" + std::to_string(i);
   if (!std::isfinite(D) || D < 0 || D > 1) { V("C17|finite|NormalDistribution|x-grid", cs, "x=" + str(x) + " D=" + str(D)); return; }
-  // accuracy of D itself against the reference, on the smaller tail (informational bucket + verdict at 1e-6 of the critical value below)
-  if (D <= 0 || D >= 1 || D < DBL_MIN) { O(std::string("inverse-x|not-representable|") + (D <= 0 ? "D=0" : D >= 1 ? "D=1" : "D-subnormal")); return; }
-  LD allowance = x > 0 ? 2.3e-16L / ref::npdf(x) : 0;   // D near 1 is quantised to ulp(1)
-  if (allowance > 1e-7L) { O("inverse-x|not-representable|1-D-below-double-resolution"); return; }
+  LD tail = ref::ntail(fabsl((LD)x));        // smaller tail at |x|
+  bool lower = x <= 0;
+  if (lower ? tail < (LD)DBL_MIN : tail < UPPER_ABS) {
+    O(std::string("x-grid|not-representable|") + (lower ? "Phi(x)<DBL_MIN" : "1-Phi(x)<4.5e-16"));
+    if (lower ? D > DBL_MIN : D < 1 - 2 * UPPER_ABS) V("C17|distribution-x|NormalDistribution|beyond-representable-range", cs, "x=" + str(x) + " D=" + str(D));
+    return;
+  }
+  C("distinct_nontrivial");
+  // (a) the distribution function itself
+  LD refD = lower ? tail : 1 - tail;
+  LD errD = fabsl((LD)D - refD), tolD = 1e-6L * tail + (lower ? 0 : UPPER_ABS);
+  O(std::string("distribution-x|") + (lower ? "lower|" : "upper|") + decade(tail) + "|err/tol" + bucket(errD / tolD));
+  if (!(errD <= tolD)) {
+    std::string cls = lower ? (D == 0 ? "lower|returns-0" : "lower|relative-error") : (D == 1 ? (tail < SNAP_TAIL ? "upper-snaps-to-1|tail<5.1e-15" : "upper|returns-1") : "upper|error");
+    V("C17|distribution-x|NormalDistribution|" + cls, cs, "x=" + str(x) + " D(x)=" + str(D) + " reference " + str((double)refD) + (lower ? " relative error " + str((double)(errD / tail)) + " (bound 1e-6)" : " error " + str((double)errD) + " (bound 1e-6 of the upper tail " + str((double)tail) + " + 4.5e-16)"));
+  }
+  // (b) the inverse pair
   double back = GNU_gama::Normal(D);
-  C("transitions"); C("distinct_nontrivial");
+  C("evaluations"); C("transitions");
+  LD allowance = lower ? 0 : UPPER_ABS / ref::npdf(x);   // what 4.5e-16 in D means in x
   LD tol = 1e-6L * std::max((LD)1, fabsl((LD)x)) + allowance;
-  LD err = fabsl((LD)back + (LD)x);
-  O(std::string("inverse-x|") + (D < 1e-11 ? "alpha<1e-11" : "alpha>=1e-11") + "|err/tol" + bucket(err / tol));
-  if (ctx().verbose) printf("# %s x=%.17g D=%.17g Normal(D)=%.17g err=%.3Lg tol=%.3Lg\n", cs.c_str(), x, D, back, err, tol);
+  LD err = std::isfinite(back) ? fabsl((LD)back + (LD)x) : 1e30L;
+  O(std::string("inverse-x|") + (lower ? "lower|" : "upper|") + decade(tail) + "|err/tol" + bucket(err / tol));
+  if (ctx().verbose) printf("# %s x=%.17g D=%.17g reference=%.20Lg errD=%.3Lg tolD=%.3Lg ; Normal(D)=%.17g err=%.3Lg tol=%.3Lg\n", cs.c_str(), x, D, refD, errD, tolD, back, err, tol);
   if (!(err <= tol)) {
-    std::string cls = D < 1e-11 ? "alpha<1e-11" : (x > 0 ? "x>0" : "alpha>=1e-11");
+    std::string cls = D == 0 ? "D=0" : D == 1 ? (tail < SNAP_TAIL ? "upper-snaps-to-1|tail<5.1e-15" : "D=1") : (lower ? "x<=0" : "x>0");
     V("C17|inverse-x|Normal(NormalDistribution(x))|" + cls, cs,
       "x=" + str(x) + " D(x)=" + str(D) + " Normal(D)=" + str(back) + " expected " + str(-x) + " error " + str((double)err) + " tol " + str((double)tol));
   }
@@ -438,6 +473,16 @@ static int run_c17() {
     for (long k = k0; k <= std::min(kmax, k0 + blk - 1); k++) c17_inva("A" + std::to_string(den), k);
   }
   if (take(unit++)) { c17_unit_log(NORMAL, 0); for (size_t i = 0; i < lgrid().a.size(); i++) c17_inva("L", (long)i); }
+  if (take(unit++)) {   // far grid: Normal finite, strictly decreasing, and NormalDistribution(-Normal(alpha)) = alpha down to the smallest normal double
+    const std::vector<double>& F = fgrid(); double prev = 0;
+    for (size_t i = 0; i < F.size(); i++) {
+      double v = GNU_gama::Normal(F[i]); C("transitions"); C("distinct_nontrivial");
+      c17_fin(NORMAL, "F", (long)i, 0, v);
+      if (i) c17_mono(NORMAL, "F", (long)i, 0, prev, v);
+      c17_inva("F", (long)i);
+      prev = v;
+    }
+  }
   for (int i0 = 0; i0 <= 8000; i0 += 500) if (take(unit++)) for (int i = i0; i < i0 + 500 && i <= 8000; i++) c17_invx(i);
   // Student and chi-square: every dof
   bool sampled = false;
